@@ -3,6 +3,7 @@ package main
 import (
 	"bytes"
 	"syscall"
+	"time"
 	"context"
 	"encoding/json"
 	"fmt"
@@ -122,8 +123,20 @@ func runCLI(cs c16Case) cliResult {
 			cmd.Stdout = f
 		}
 	}
-	err := cmd.Run()
+	// a CLI invocation takes milliseconds; one that is still running after 120 s is killed and reported
+	err := cmd.Start()
 	code := 0
+	if err == nil {
+		done := make(chan error, 1)
+		go func() { done <- cmd.Wait() }()
+		select {
+		case err = <-done:
+		case <-time.After(120 * time.Second):
+			cmd.Process.Kill()
+			<-done
+			return cliResult{so.String(), se.String() + "\n(verif: killed after 120 s)", -999, fsx.Snapshot(j.Target)}
+		}
+	}
 	if ee, ok := err.(*exec.ExitError); ok {
 		code = ee.ExitCode()
 	} else if err != nil {
@@ -253,6 +266,10 @@ func c16Judge(c *rep.Ctx, cs c16Case) {
 		if a == "--massive" || a == "-m" || a == "--massive-timeout" || a == "--mt" {
 			massive = true
 		}
+	}
+	if cli.code == -999 {
+		c.Violation("C16|cli-did-not-terminate|"+cs.Cmd, fmt.Sprintf("%s: still running after 120 s", desc), size, cs)
+		return
 	}
 	if strings.Contains(cli.stderr, "goroutine ") && (strings.Contains(cli.stderr, "panic:") || strings.Contains(cli.stderr, "[running]")) || cli.code == 2 && strings.Contains(cli.stderr, "panic") {
 		c.Violation("C16|cli-crash|"+cs.Cmd+"|"+cs.DocName, fmt.Sprintf("%s: exit %d, stderr %q", desc, cli.code, firstN(cli.stderr, 300)), size, cs)
